@@ -268,6 +268,9 @@ func runCheck(prop, tier string) int {
 			qto = 60000
 		}
 		opts := RunOpts{Params: params, Budgets: bud, Workers: workers, TimeoutMs: qto, Seed: seed, MaxSample: 12}
+		if tier == "thorough" || os.Getenv("VERIF_RECHECK") != "" {
+			opts.Recheck = 6 // per worker: up to ~100 assertion queries per harness re-discharged with cvc5 and z3 5.x
+		}
 		if s, ok := h.MaxSeconds[tier]; ok {
 			opts.Deadline = time.Now().Add(time.Duration(s) * time.Second)
 		}
@@ -280,6 +283,9 @@ func runCheck(prop, tier string) int {
 		fmt.Printf("[%s %s] %-28s paths=%d infeasible=%d decisions=%d queries=%d (sat %d, unsat %d, cache %d, model-hit %d) solver=%.1fs wall=%.1fs failures=%d\n",
 			prop, tier, h.Name, res.Paths, res.Infeasible, res.Decisions, res.Queries, res.Sat, res.Unsat, res.CacheHits, res.ModelHits,
 			res.SolverTime.Seconds(), res.Wall.Seconds(), len(res.Failures))
+		for _, cp := range res.CrossProblems {
+			out.inconclusive = append(out.inconclusive, fmt.Sprintf("%s: cross-solver disagreement: %s", h.Name, cp))
+		}
 		for p, n := range res.Problems {
 			if h.Termination && strings.HasPrefix(p, "TRUNCATED") && !strings.Contains(p, "exploration stopped") {
 				continue // handled below as violation candidates
@@ -537,7 +543,8 @@ func writeEvidence(root, prop, tier string, seed int64, spec *Spec, results []*H
 			"decisions": r.Decisions, "scheduling_decisions": r.SchedDec, "queries": r.Queries, "sat": r.Sat, "unsat": r.Unsat, "assertion_queries": r.AssertQ,
 			"cache_hits": r.CacheHits, "model_hits": r.ModelHits,
 			"solver_time_s": round2(r.SolverTime.Seconds()), "wall_s": round2(r.Wall.Seconds()), "failure_groups": fl, "witnesses": wit,
-			"max_instructions_on_a_path": r.MaxInstrs, "problems": r.Problems})
+			"max_instructions_on_a_path": r.MaxInstrs, "problems": r.Problems,
+			"cross_solver_queries_rechecked": r.CrossChecked, "cross_solver_disagreements": r.CrossDisagree})
 	}
 	if len(samples) == 0 {
 		samples = append(samples, "no path completed")
